@@ -40,6 +40,7 @@ def run(model, rep, tier):
     c13.r4_who_may_assign(ctx, rep, R='C18.R4')
     tsrules.record_units(rep, tsrules.exploration(ctx))
     r5_stray_mutators(ctx, rep)
+    r6_restore_before_fallible_teardown(ctx, rep)
     rep.units['cfg'] = ctx.cfg_stats
 
 
@@ -357,3 +358,94 @@ def r5_stray_mutators(ctx, rep, R='C18.R5'):
                       'path' % (fi.qualname, canon), key='stray:%s@%s' % (canon, fi.qualname),
                       func=fi.qualname, where=ctx.where(fi, items[0][1]))
     rep.floor(R, n, 1, 'mutation sites outside feature hooks')
+
+
+IO_PREFIXES = ('os.', 'glob.', 'tempfile.', 'shutil.', 'pstats.', 'socket.', 'subprocess.')
+IO_NAMES = ('open', 'print')
+IO_METHODS = ('dump_stats', 'write', 'close', 'flush', 'writelines', 'read', 'unlink', 'mkdir',
+              'write_results')
+
+
+def _registered_features(ctx):
+    """feature classes in the order Runner.configure registers them"""
+    m = ctx.model
+    fi = m.func('runner.Runner.configure')
+    out = []
+    for st in fi.node.body:
+        for c in ast.walk(st):
+            if isinstance(c, ast.Call) and isinstance(c.func, ast.Attribute) and \
+                    c.func.attr == 'append' and dotted(c.func.value) == 'self.features' and c.args \
+                    and isinstance(c.args[0], ast.Call):
+                r = m.lookup(m.resolve_dotted(fi.module, dotted(c.args[0].func)))
+                if r is not None and hasattr(r, 'methods'):
+                    out.append(r)
+    return out
+
+
+def _hook_body(ctx, cls, hook):
+    """(kind, functions) for what Runner.run executes as cls.<hook>: the method (plus the
+    helpers it calls one level down), or the bound method a set-up hook rebinds it to"""
+    m = ctx.model
+    for c in m.mro(cls):
+        for f in c.methods.values():
+            for n_ in ast.walk(f.node):
+                if isinstance(n_, ast.Assign) and isinstance(n_.targets[0], ast.Attribute) and \
+                        is_name(n_.targets[0].value, 'self') and n_.targets[0].attr == hook:
+                    return 'rebound', n_.value
+    f = m.find_method(cls, hook)
+    if f is None or f.cls.qualname == 'feature.Feature':
+        return 'none', None
+    return 'method', [f] + _callees_one_level(ctx, f)
+
+
+def _does_io(ctx, funcs):
+    m = ctx.model
+    for f in funcs:
+        for c in own_calls(f.node):
+            d = m.resolve_dotted(f.module, dotted(c.func)) if dotted(c.func) else None
+            if d and (d.startswith(IO_PREFIXES) or d in IO_NAMES):
+                return norm(c)[:60]
+            if isinstance(c.func, ast.Attribute) and c.func.attr in IO_METHODS:
+                return norm(c)[:60]
+            if isinstance(c.func, ast.Attribute) and (dotted(c.func.value) or '').startswith('self.profiler'):
+                return norm(c)[:60]
+    return None
+
+
+def r6_restore_before_fallible_teardown(ctx, rep, R='C18.R6'):
+    rep.rule(R, 'restorations are not placed behind a fallible teardown step: Runner.run calls the '
+             'teardown hooks in two plain loops (early_teardown, then global_teardown, features in '
+             'reverse registration order), so an exception in one hook skips all later ones; every '
+             'hook that restores catalogued interpreter state therefore runs before the first hook '
+             'that performs I/O (file, descriptor, profiler statistics), which can fail')
+    feats = _registered_features(ctx)
+    rep.floor(R, len(feats), 10, 'registered features')
+    seq = []
+    for hook in TEARDOWN_HOOKS:
+        for cls in reversed(feats):
+            kind, body = _hook_body(ctx, cls, hook)
+            if kind == 'none':
+                continue
+            if kind == 'rebound':
+                restoring = isinstance(body, ast.Attribute) and body.attr in ('disable', 'stop')
+                seq.append((cls, hook, restoring, None))
+                continue
+            restoring = any(_mutations(ctx, f) for f in body)
+            seq.append((cls, hook, restoring, _does_io(ctx, body)))
+    first_io = None
+    n = 0
+    for cls, hook, restoring, io in seq:
+        if restoring:
+            n += 1
+            rep.check(first_io is None, R, '%s.%s restores state before any fallible teardown step'
+                      % (cls.name, hook),
+                      '%s.%s restores interpreter state but runs after %s.%s, which performs I/O (%s) '
+                      'and can raise: the restoration would then be skipped and the run would end '
+                      'with the state still changed' % ((cls.name, hook) + (first_io or ('', '', ''))),
+                      key='order:%s.%s' % (cls.name, hook), func=cls.qualname + '.' + hook)
+        if io and first_io is None:
+            first_io = (cls.name, hook, io)
+    rep.floor(R, n, 4, 'state-restoring teardown hooks')
+    rep.sample('teardown order: ' + ' > '.join('%s.%s%s%s' % (c.name, h, '[restores]' if r else '',
+                                                             '[io]' if io else '')
+                                               for c, h, r, io in seq))
